@@ -78,6 +78,7 @@ func checkC20(c *ctx) {
 	var gcov map[string]interface{}
 	if c.R.NumViolations() < 6 {
 		c.AlsoProps = []string{"C01", "C02", "C03", "C04", "C07", "C09", "C15"} // (the modes must agree on when and in which order the arguments are evaluated, too)
+		mo.Wide = c.pick(8, 40) // flows of independent functions, held until as many run at once as the limit allows
 		progs := genPrograms(c.Seed, "C20m", c.pick(70, 800), 0, mo, 1)
 		for _, p := range progs {
 			p.InMethod = false
@@ -90,13 +91,13 @@ func checkC20(c *ctx) {
 			c.R.Add(vc.Violation{Property: "C20", Case: "modifier/" + name, Why: "modifier mode: " + why, Obs: map[string]string{"clause": "modifier-compiles"},
 				Witness: map[string]interface{}{"engine": "T", "source": readProgSource(co, name), "generated": readProgGen(co, name), "cff_output": grepLines(co.CffOut, name, 5)}})
 		}
-		am := runGen(c, co, "ok,fault,panic", c.pick(5, 10), false)
+		am := runGen(c, co, "ok,fault,panic,wide", c.pick(5, 10), false)
 		// the same programs in base mode, same scenarios, same oracle
 		bwork := vc.WorkDir("c20b")
 		cb := writeCorpus(bwork, progs)
 		cb.generate(cff, "base")
 		cb.buildRunner(false)
-		ab := runGen(c, cb, "ok,fault,panic", c.pick(5, 10), false)
+		ab := runGen(c, cb, "ok,fault,panic,wide", c.pick(5, 10), false)
 		gcov = am.coverage("(b) flows restricted to Params, Results, Concurrency and plain Tasks (no predicates, fallbacks, Invoke, instrumentation) generated in modifier mode and in base mode, both executed under identical scenarios (ok / error / panic per task) and judged by the same reference interpreter: returned error identity, Results tokens, stub-call multiset")
 		gcov["base_mode_evaluations"] = ab.Evaluations
 		gcov["base_mode_programs"] = ab.Programs
